@@ -180,26 +180,26 @@ MENU = [
     ("load read() raises OSError", "list(lightmotif.load(OSErrorRead(), 'jaspar'))", R, False),
     ("load read() raises RuntimeError", "list(lightmotif.load(RuntimeErrorRead(), 'transfac'))", R, False),
     # ---- no-panic menu (degenerate but type-correct arguments)
-    ("calculate zero-width motif create([])", "list(lightmotif.create([]).pssm.calculate(dna_seq()))", N, False),
-    ("calculate zero-width motif create([''])", "list(lightmotif.create(['']).pssm.calculate(dna_seq()))", N, False),
-    ("calculate zero-width motif on empty sequence", "list(lightmotif.create([]).pssm.calculate(lightmotif.stripe('')))", N, False),
-    ("calculate zero-width protein motif", "list(lightmotif.create([], protein=True).pssm.calculate(prot_seq()))", N, False),
-    ("scan zero-width motif", "hits(lightmotif.scan(lightmotif.create([]).pssm, dna_seq()))", N, True),
-    ("CountMatrix zero rows pipeline", "list(lightmotif.CountMatrix({'A': []}).normalize(0.1).log_odds().calculate(dna_seq()))", N, False),
+    ("zero-width motif calculate create([])", "list(lightmotif.create([]).pssm.calculate(dna_seq()))", N, False),
+    ("zero-width motif calculate create([''])", "list(lightmotif.create(['']).pssm.calculate(dna_seq()))", N, False),
+    ("zero-width motif calculate on empty sequence", "list(lightmotif.create([]).pssm.calculate(lightmotif.stripe('')))", N, False),
+    ("zero-width motif calculate protein", "list(lightmotif.create([], protein=True).pssm.calculate(prot_seq()))", N, False),
+    ("zero-width motif scan", "hits(lightmotif.scan(lightmotif.create([]).pssm, dna_seq()))", N, True),
+    ("zero-width motif CountMatrix pipeline calculate", "list(lightmotif.CountMatrix({'A': []}).normalize(0.1).log_odds().calculate(dna_seq()))", N, False),
     ("zero-width motif pvalue meme", "lightmotif.create([]).pssm.pvalue(0.0)", N, True),
     ("zero-width motif pvalue tfmpvalue", "lightmotif.create([]).pssm.pvalue(0.0, 'tfmpvalue')", N, True),
     ("zero-width motif score meme", "lightmotif.create([]).pssm.score(0.5)", N, True),
     ("zero-width motif max_score", "lightmotif.create([]).pssm.max_score()", N, False),
     ("zero-width motif reverse_complement", "len(lightmotif.create([]).pssm.reverse_complement())", N, False),
-    ("ScoringMatrix nan max_score", "lightmotif.ScoringMatrix({'A': [nan], 'C': [1.0], 'G': [0.0], 'T': [0.0]}).max_score()", N, False),
-    ("ScoringMatrix nan calculate", "list(lightmotif.ScoringMatrix({'A': [nan], 'C': [1.0], 'G': [0.0], 'T': [0.0]}).calculate(dna_seq()))[:3]", N, False),
-    ("ScoringMatrix nan max", "lightmotif.ScoringMatrix({'A': [nan], 'C': [1.0], 'G': [0.0], 'T': [0.0]}).calculate(dna_seq()).max()", N, False),
-    ("ScoringMatrix nan argmax", "lightmotif.ScoringMatrix({'A': [nan], 'C': [1.0], 'G': [0.0], 'T': [0.0]}).calculate(dna_seq()).argmax()", N, False),
-    ("ScoringMatrix nan scan", "hits(lightmotif.scan(lightmotif.ScoringMatrix({'A': [nan], 'C': [1.0], 'G': [0.0], 'T': [0.0]}), dna_seq(), threshold=-1.0))", N, True),
-    ("ScoringMatrix nan pvalue", "lightmotif.ScoringMatrix({'A': [nan], 'C': [1.0], 'G': [0.0], 'T': [0.0]}).pvalue(0.5)", N, True),
-    ("ScoringMatrix +inf scan", "hits(lightmotif.scan(lightmotif.ScoringMatrix({'A': [inf], 'C': [1.0], 'G': [0.0], 'T': [0.0]}), dna_seq(), threshold=-1.0))", N, True),
-    ("ScoringMatrix +inf pvalue", "lightmotif.ScoringMatrix({'A': [inf], 'C': [1.0], 'G': [0.0], 'T': [0.0]}).pvalue(0.5)", N, True),
-    ("ScoringMatrix all -inf scan", "hits(lightmotif.scan(lightmotif.ScoringMatrix({'A': [-inf], 'C': [-inf], 'G': [-inf], 'T': [-inf]}), dna_seq(), threshold=-1.0))", N, True),
+    ("nan cell max_score", "lightmotif.ScoringMatrix({'A': [nan], 'C': [1.0], 'G': [0.0], 'T': [0.0]}).max_score()", N, False),
+    ("nan cell calculate", "list(lightmotif.ScoringMatrix({'A': [nan], 'C': [1.0], 'G': [0.0], 'T': [0.0]}).calculate(dna_seq()))[:3]", N, False),
+    ("nan cell max", "lightmotif.ScoringMatrix({'A': [nan], 'C': [1.0], 'G': [0.0], 'T': [0.0]}).calculate(dna_seq()).max()", N, False),
+    ("nan cell argmax", "lightmotif.ScoringMatrix({'A': [nan], 'C': [1.0], 'G': [0.0], 'T': [0.0]}).calculate(dna_seq()).argmax()", N, False),
+    ("nan cell scan", "hits(lightmotif.scan(lightmotif.ScoringMatrix({'A': [nan], 'C': [1.0], 'G': [0.0], 'T': [0.0]}), dna_seq(), threshold=-1.0))", N, True),
+    ("nan cell pvalue", "lightmotif.ScoringMatrix({'A': [nan], 'C': [1.0], 'G': [0.0], 'T': [0.0]}).pvalue(0.5)", N, True),
+    ("inf cell scan", "hits(lightmotif.scan(lightmotif.ScoringMatrix({'A': [inf], 'C': [1.0], 'G': [0.0], 'T': [0.0]}), dna_seq(), threshold=-1.0))", N, True),
+    ("inf cell pvalue", "lightmotif.ScoringMatrix({'A': [inf], 'C': [1.0], 'G': [0.0], 'T': [0.0]}).pvalue(0.5)", N, True),
+    ("-inf cells scan all", "hits(lightmotif.scan(lightmotif.ScoringMatrix({'A': [-inf], 'C': [-inf], 'G': [-inf], 'T': [-inf]}), dna_seq(), threshold=-1.0))", N, True),
     ("-inf cells pvalue meme", "inf_pssm().pvalue(1.0)", N, True),
     ("-inf cells score meme", "inf_pssm().score(0.01)", N, True),
     ("-inf cells pvalue tfmpvalue", "inf_pssm().pvalue(1.0, 'tfmpvalue')", N, True),
@@ -208,31 +208,31 @@ MENU = [
     ("scan threshold nan", "hits(lightmotif.scan(dna_pssm(), dna_seq(), threshold=nan))", N, True),
     ("scan threshold +inf", "hits(lightmotif.scan(dna_pssm(), dna_seq(), threshold=inf))", N, True),
     ("scan threshold -inf", "len(hits(lightmotif.scan(dna_pssm(), dna_seq(), threshold=-inf)))", N, True),
-    ("scan block_size 0 low threshold", "len(hits(lightmotif.scan(dna_pssm(), dna_seq(), threshold=-5.0, block_size=0)))", N, True),
-    ("scan block_size 0 high threshold", "len(hits(lightmotif.scan(dna_pssm(), dna_seq(), threshold=50.0, block_size=0)))", N, True),
-    ("scan block_size 0 empty sequence", "len(hits(lightmotif.scan(dna_pssm(), lightmotif.stripe(''), block_size=0)))", N, True),
+    ("block_size 0 low threshold", "len(hits(lightmotif.scan(dna_pssm(), dna_seq(), threshold=-5.0, block_size=0)))", N, True),
+    ("block_size 0 high threshold", "len(hits(lightmotif.scan(dna_pssm(), dna_seq(), threshold=50.0, block_size=0)))", N, True),
+    ("block_size 0 empty sequence", "len(hits(lightmotif.scan(dna_pssm(), lightmotif.stripe(''), block_size=0)))", N, True),
     ("scan block_size -1", "lightmotif.scan(dna_pssm(), dna_seq(), block_size=-1)", R, False),
     ("scan block_size 2^64", "lightmotif.scan(dna_pssm(), dna_seq(), block_size=2 ** 64)", R, False),
     ("scan block_size 2^64-1", "len(hits(lightmotif.scan(dna_pssm(), dna_seq(), threshold=-5.0, block_size=2 ** 64 - 1)))", N, True),
     ("threshold nan", "dna_pssm().calculate(dna_seq()).threshold(nan)", N, False),
     ("threshold +inf", "dna_pssm().calculate(dna_seq()).threshold(inf)", N, False),
-    ("score meme nan", "dna_pssm().score(nan)", N, False),
-    ("score meme negative", "dna_pssm().score(-0.5)", N, False),
-    ("score meme above 1", "dna_pssm().score(1.5)", N, False),
-    ("score meme 0", "dna_pssm().score(0.0)", N, False),
-    ("score meme 1", "dna_pssm().score(1.0)", N, False),
-    ("score tfmpvalue nan", "dna_pssm().score(nan, 'tfmpvalue')", N, True),
-    ("score tfmpvalue negative", "dna_pssm().score(-0.5, 'tfmpvalue')", N, True),
-    ("score tfmpvalue above 1", "dna_pssm().score(1.5, 'tfmpvalue')", N, True),
-    ("score tfmpvalue 0", "dna_pssm().score(0.0, 'tfmpvalue')", N, True),
-    ("score tfmpvalue 1", "dna_pssm().score(1.0, 'tfmpvalue')", N, True),
-    ("pvalue meme nan", "dna_pssm().pvalue(nan)", N, False),
-    ("pvalue meme +inf", "dna_pssm().pvalue(inf)", N, False),
-    ("pvalue meme -inf", "dna_pssm().pvalue(-inf)", N, False),
-    ("pvalue meme 1e300", "dna_pssm().pvalue(1e300)", N, False),
-    ("pvalue tfmpvalue nan", "dna_pssm().pvalue(nan, 'tfmpvalue')", N, True),
-    ("pvalue tfmpvalue +inf", "dna_pssm().pvalue(inf, 'tfmpvalue')", N, True),
-    ("pvalue tfmpvalue -inf", "dna_pssm().pvalue(-inf, 'tfmpvalue')", N, True),
+    ("p-value domain score meme nan", "dna_pssm().score(nan)", N, False),
+    ("p-value domain score meme negative", "dna_pssm().score(-0.5)", N, False),
+    ("p-value domain score meme above 1", "dna_pssm().score(1.5)", N, False),
+    ("p-value domain score meme 0", "dna_pssm().score(0.0)", N, False),
+    ("p-value domain score meme 1", "dna_pssm().score(1.0)", N, False),
+    ("p-value domain score tfmpvalue nan", "dna_pssm().score(nan, 'tfmpvalue')", N, True),
+    ("p-value domain score tfmpvalue negative", "dna_pssm().score(-0.5, 'tfmpvalue')", N, True),
+    ("p-value domain score tfmpvalue above 1", "dna_pssm().score(1.5, 'tfmpvalue')", N, True),
+    ("p-value domain score tfmpvalue 0", "dna_pssm().score(0.0, 'tfmpvalue')", N, True),
+    ("p-value domain score tfmpvalue 1", "dna_pssm().score(1.0, 'tfmpvalue')", N, True),
+    ("score domain pvalue meme nan", "dna_pssm().pvalue(nan)", N, False),
+    ("score domain pvalue meme +inf", "dna_pssm().pvalue(inf)", N, False),
+    ("score domain pvalue meme -inf", "dna_pssm().pvalue(-inf)", N, False),
+    ("score domain pvalue meme 1e300", "dna_pssm().pvalue(1e300)", N, False),
+    ("score domain pvalue tfmpvalue nan", "dna_pssm().pvalue(nan, 'tfmpvalue')", N, True),
+    ("score domain pvalue tfmpvalue +inf", "dna_pssm().pvalue(inf, 'tfmpvalue')", N, True),
+    ("score domain pvalue tfmpvalue -inf", "dna_pssm().pvalue(-inf, 'tfmpvalue')", N, True),
     ("normalize negative", "[list(r) for r in cm().normalize(-1.0)]", N, False),
     ("normalize nan", "[list(r) for r in cm().normalize(nan)]", N, False),
     ("normalize inf", "[list(r) for r in cm().normalize(inf)]", N, False),
@@ -240,11 +240,11 @@ MENU = [
     ("log_odds base 0", "[list(r) for r in wm().log_odds(None, 0.0)]", N, False),
     ("log_odds base negative", "[list(r) for r in wm().log_odds(None, -2.0)]", N, False),
     ("log_odds base nan", "[list(r) for r in wm().log_odds(None, nan)]", N, False),
-    ("load empty jaspar", "list(lightmotif.load(io.BytesIO(b''), 'jaspar'))", N, False),
-    ("load empty jaspar16", "list(lightmotif.load(io.BytesIO(b''), 'jaspar16'))", N, False),
-    ("load empty transfac", "list(lightmotif.load(io.BytesIO(b''), 'transfac'))", N, False),
-    ("load empty uniprobe", "list(lightmotif.load(io.BytesIO(b''), 'uniprobe'))", N, False),
-    ("load read() returns more than asked", "list(lightmotif.load(BigRead(), 'jaspar'))", N, False),
+    ("empty file jaspar", "list(lightmotif.load(io.BytesIO(b''), 'jaspar'))", N, False),
+    ("empty file jaspar16", "list(lightmotif.load(io.BytesIO(b''), 'jaspar16'))", N, False),
+    ("empty file transfac", "list(lightmotif.load(io.BytesIO(b''), 'transfac'))", N, False),
+    ("empty file uniprobe", "list(lightmotif.load(io.BytesIO(b''), 'uniprobe'))", N, False),
+    ("file object read() returns more than asked", "list(lightmotif.load(BigRead(), 'jaspar'))", N, False),
     ("memoryview of empty striped sequence", "memoryview(lightmotif.stripe('')).nbytes", N, False),
     ("memoryview of empty encoded sequence", "memoryview(lightmotif.EncodedSequence('')).nbytes", N, False),
     ("stripe empty protein", "lightmotif.stripe('', protein=True).copy().protein", N, False),
@@ -327,7 +327,7 @@ def run(ctx, rep):
             judge(rep, case, res)
             rep.eval()
             if i % 97 == 9:
-                rep.sample(dict(case, outcome=list(res)), per_space=2)
+                rep.sample(dict(case, outcome=list(res)), per_space=1)
 
 
 def replay(ctx, rep, case):
